@@ -95,6 +95,31 @@ Theorem c14_frame_parses_back fin rsv op masked form key payload rest :
     rfc_payload h ((if masked then rfc_unmask key 0 payload else payload) ++ rest) = Some (payload, rest).
 Proof. exact (frame_parses_back fin rsv op masked form key payload rest). Qed.
 
+(* ... and consumes a well-formed data frame as 5.4 says (first frame when no message is open,
+   continuation otherwise; any length form; masked as the role requires; within the size bound):
+   its payload joins the open message, delivered whole when FIN is set.  Chaining this lemma
+   gives: a message sent under ANY fragmentation is delivered intact. *)
+Theorem c14_data_frame_step server cap fuel open fin op form key payload rest evs :
+  form_ok form (lenN payload) -> (lenN payload < two63)%N -> length key = 4%nat ->
+  (match open with Some _ => op = 0%N | None => op = 1%N \/ op = 2%N end) ->
+  (snd (open_parts open (mkHdr fin 0 op server (negb (form =? 7)%N) (lenN payload) [])) + lenN payload <= cap)%N ->
+  rfc_recv (S fuel) server cap open (ser_frame fin 0 op server form key payload ++ rest) evs =
+  (let '(t, fr, n) := open_parts open (mkHdr fin 0 op server (negb (form =? 7)%N) (lenN payload) []) in
+   if fin then rfc_recv fuel server cap None rest (EvMsg t (concat (rev' (payload :: fr))) :: evs)
+   else rfc_recv fuel server cap (Some (t, payload :: fr, (n + lenN payload)%N)) rest evs).
+Proof. exact (rfc_recv_data_frame server cap fuel open fin op form key payload rest evs). Qed.
+
+(* A message of type op (text / binary) sent as ANY non-empty sequence of fragments -- each in any
+   admissible length form (chunk_ok), with any masking key, the total within the receiver's bound --
+   is delivered by the RFC receiver as ONE message with the concatenated payload, and the receiver
+   goes on with what follows; by c14_refines_rfc the library returns exactly that message. *)
+Theorem c14_any_fragmentation server limit op chunks rest :
+  chunks <> [] -> Forall chunk_ok chunks -> op = 1%N \/ op = 2%N -> limit < 9223372036854775808 ->
+  (lenN (chunks_payload chunks) <= rfc_cap limit)%N ->
+  forall fuel, rfc_recv (length chunks + fuel) server (rfc_cap limit) None (ser_chunks server true op chunks ++ rest) [] =
+               rfc_recv fuel server (rfc_cap limit) None rest [EvMsg op (chunks_payload chunks)].
+Proof. exact (message_any_fragmentation server limit op chunks rest). Qed.
+
 Theorem c14_top_bit_not_a_frame fin rsv op masked len key rest :
   (rsv < 8)%N -> (op < 16)%N -> (two63 <= len < 18446744073709551616)%N -> length key = 4%nat ->
   rfc_header (ser_header fin rsv op masked 64 len key ++ rest) = HBadLen.
@@ -105,6 +130,19 @@ Theorem ws_read_total server limit extra bs :
   wf_bytes bs -> limit < 9223372036854775808 -> (extra < 999)%nat ->
   forall s, lib_session true server limit extra bs <> Panic s.
 Proof. exact (WsReadProps.ws_read_total server limit extra bs). Qed.
+
+(* Stronger, hypothesis-free forms: advanceFrame never panics from ANY reader state (any counters,
+   flags, pending error, transport content -- bytes need not even be < 256), repaired or pinned code;
+   a whole session never panics for any transport content, any limit, either role, any pattern of
+   read / abandoned messages (NextReader called again without reading). *)
+Theorem ws_advance_total fixed c s : advance_frame fixed c <> MPanic s.
+Proof. exact (advance_frame_total fixed c s). Qed.
+Theorem ws_read_total_all fixed server limit extra inp s :
+  (extra < 999)%nat -> lib_session fixed server limit extra inp <> Panic s.
+Proof. exact (WsReadProps.ws_read_total_all fixed server limit extra inp s). Qed.
+Theorem ws_read_pat_total fixed server limit pat inp s :
+  lib_session_pat fixed server limit pat inp <> Panic s.
+Proof. exact (WsReadProps.ws_read_pat_total fixed server limit pat inp s). Qed.
 
 (* the deliberate panic: the 1000th ReadMessage on a failed connection *)
 Theorem c14_repeat_panic :
@@ -131,8 +169,13 @@ Print Assumptions c14_limit.
 Print Assumptions c14_ping_pong.
 Print Assumptions c14_cut.
 Print Assumptions c14_frame_parses_back.
+Print Assumptions c14_data_frame_step.
+Print Assumptions c14_any_fragmentation.
 Print Assumptions c14_top_bit_not_a_frame.
 Print Assumptions ws_read_total.
+Print Assumptions ws_advance_total.
+Print Assumptions ws_read_total_all.
+Print Assumptions ws_read_pat_total.
 Print Assumptions c14_repeat_panic.
 Print Assumptions c14_len63_refuted.
 Print Assumptions c14_limit_refuted.
